@@ -187,6 +187,7 @@ type Report struct {
 	Violations int
 	Bounded    []string
 	Callees    []string
+	Unreachable []string
 	ReplayNotes []string
 }
 
@@ -235,13 +236,37 @@ func (e *Engine) report(prop, tier string, seed int, results []*FuncResult, obls
 	rep.Unspec = sortedKeys(unspec)
 	rep.Callees = sortedKeys(callees)
 	names := map[string]bool{}
+	reach, hasRet, retReach := map[string]bool{}, map[string]bool{}, map[string]bool{}
+	defer func() {
+		for f := range hasRet {
+			if !retReach[f] {
+				rep.Broken = append(rep.Broken, "vacuous: no return path of "+f+" is reachable")
+				fmt.Fprintf(os.Stderr, "BROKEN-CHECK property=%s vacuous: no return path of %s is reachable\n", prop, f)
+				if rep.Exit == 0 {
+					rep.Exit = 2
+				}
+			}
+		}
+	}()
 	var dischargedNames []string
 	for _, o := range obls {
 		rep.SolverMS += o.TimeMS
 		if o.Cover {
 			rep.Covers++
 			if o.Status == "unsat" {
-				rep.Broken = append(rep.Broken, "vacuous: "+o.Name+" is unreachable (contradictory assumptions)")
+				if strings.HasSuffix(o.Name, "/pre") {
+					rep.Broken = append(rep.Broken, "vacuous: "+o.Name+" is unsatisfiable (contradictory precondition)")
+				} else {
+					rep.Unreachable = append(rep.Unreachable, o.Name)
+				}
+			} else {
+				reach[o.Func] = true
+			}
+			if strings.Contains(o.Name, "/return#") {
+				hasRet[o.Func] = true
+				if o.Status != "unsat" {
+					retReach[o.Func] = true
+				}
 			}
 			continue
 		}
@@ -368,7 +393,7 @@ func (rep *Report) writeEvidence(path, cmdline string) {
 			"obligations": rep.Total - len(rep.KnownHit), "discharged": rep.Discharged,
 			"checker_cmd": cmdline, "trusted_base": tb, "samples": rep.Samples,
 			"functions_under_contract": rep.Funcs, "by_solver": rep.BySolver, "second_solver_agreement": rep.Second,
-			"vacuity_covers_sat": rep.Covers - len(rep.Broken), "vacuity_covers_total": rep.Covers,
+			"vacuity_covers_reachable": rep.Covers - len(rep.Unreachable), "vacuity_covers_total": rep.Covers, "unreachable_paths": rep.Unreachable,
 			"solver_time_ms": rep.SolverMS, "timing": rep.Timing,
 			"undecided": rep.Undecided, "known_findings_hit": rep.KnownHit, "failed": failed,
 			"callee_contracts_relied_on": rep.Callees, "bounded_standins": rep.Bounded,
